@@ -153,7 +153,7 @@ def elements : DocM (List (Nat × List ShapeRec)) := do
 
 /-- `_inherited_attrib(el)`: the cascade context the ancestors hand down -/
 def inheritedAttrib (root : Node) (u : Nat) : Except PyErr Attrs :=
-  (Node.ancestors root u).reverse.foldlM (fun ctx a => attribToPassOn ctx a.attrs) Gen.inheritableAttribDefaults
+  (Node.ancestors root u).reverse.foldlM (fun ctx a => attribToPassOnEl ctx a) Gen.inheritableAttribDefaults
 
 /-- `_update_etree()` -/
 def updateEtree : DocM Unit := do
@@ -263,9 +263,13 @@ def removeUnpaintedShapes : DocM Unit := do
   updateEtree
   let l ← elements
   let mut remove : List Nat := []
+  let root0 ← getRoot
   for (u, shapes) in l do
     match shapes with
-    | [sh] => if !(← mightPaintM sh) then remove := remove ++ [u]
+    | [sh] =>
+      -- the children of a clipPath are geometry: what they are painted with is irrelevant
+      if (Node.ancestors root0 u).any (fun a => a.localTag == "clipPath") then pure ()
+      else if !(← mightPaintM sh) then remove := remove ++ [u]
     | _ => fail .valueError
   for u in remove do
     let root ← getRoot
